@@ -81,7 +81,10 @@ def reactions(tier, rng):
     n = 0
     want = 12 if tier == "thorough" else 3
     while n < want:
-        spec = U.synth_spec(rng, nfs=rng.choice([3, 4]), formalism=rng.choice(["helicity", "canonical-helicity"]), helset="full")
+        # every other synthetic reaction: four final states, two topologies, the same resonance in different subsystems
+        multi = n % 2 == 0
+        spec = U.synth_spec(rng, nfs=4 if multi else rng.choice([3, 4]), formalism=rng.choice(["helicity", "canonical-helicity"]), helset="full",
+                            ntop=2 if multi else None, name_by="size" if multi else None, maxspin2=2 if multi else 4)
         if spec is None or len(spec["transitions"]) > 40:
             continue
         out.append((f"synth:{n}:{spec['formalism']}:{spec['meta']['nfs']}", ampl.make_reaction(spec)))
@@ -162,7 +165,9 @@ def run(chk, replay=None):
                     if dk not in where:
                         continue  # a decay of a symmetrised graph only: not addressable through (transition, node)
                     i, node = where[dk]
-                    if a == "AssignTuple":
+                    # AssignDecay and AssignTuple have the same effect in DynSel (TLC labels the step with either):
+                    # the driver picks the (transition, node) form half of the time
+                    if a == "AssignTuple" or rng.random() < 0.5:
                         tr = reaction.transitions[i]
                         nid = next(n for n in tr.topology.nodes if TwoBodyDecay.from_transition(tr, n) == dk)
                         sel.assign((tr, nid), tags[args[1]])
@@ -236,11 +241,11 @@ def run(chk, replay=None):
     for i, r in enumerate(records):
         if r["ev"] == "Formulate" and any(c["dyn"] for c in r["chains"]):
             t = r["tid"]
-            bad = copy.deepcopy([x for x in records if x["tid"] == t and records.index(x) <= i])
+            bad = copy.deepcopy([x for k, x in enumerate(records) if x["tid"] == t and k <= i])
             c = next(c for c in bad[-1]["chains"] if c["dyn"])
             c["dyn"][0][2], c["dyn"][0][3] = c["dyn"][0][3], c["dyn"][0][2]
             break
-    if bad:
+    if bad and not chk.violations:
         tvb = trace.validate("Trace_Dynamics", bad)
         if not tvb.rejects:
             raise Machinery("binding demonstration failed: swapped daughter masses accepted")
